@@ -8,7 +8,7 @@
    for an arbitrary H (the theorems hold for every hash function). *)
 From Coq Require Import NArith List Bool.
 From ELA Require Import lib.GoSem lib.Bytes lib.VarInt model.C02_Fmt model.C02_Descr model.C04_Codec
-  proof.C02_Safe proof.C04_Roundtrip proof.C04_Tx.
+  model.C04_Payloads proof.C02_Safe proof.C04_Roundtrip proof.C04_Tx proof.C04_Payloads.
 From ELA Require corr.C04_corr.
 Import ListNotations.
 Local Open Scope N_scope.
@@ -86,6 +86,67 @@ Theorem C04_decoded_block_stable : forall bs b rest, bytes_ok bs = true ->
   wf_block b = true /\ decode_block (encode_block b) = Ok (b, []).
 Proof. exact decoded_block_stable. Qed.
 Print Assumptions C04_decoded_block_stable.
+
+(* Typed payloads.  Any record type with a left-invertible conversion to the
+   values of a well-formed descriptor round-trips ... *)
+Theorem C04_typed_roundtrip : forall (A : Type) (f : fmt) (c : ctx) (to : A -> value) (of : value -> option A),
+  wf_alloc f = true -> (forall a, of (to a) = Some a) ->
+  forall a rest, wt f c (to a) = true ->
+  lift of (decode f c (encode f c (to a) ++ rest)) = Ok (a, rest).
+Proof. exact typed_roundtrip. Qed.
+Print Assumptions C04_typed_roundtrip.
+
+(* ... instantiated for the records of model/C04_Payloads.v: ProducerInfo
+   (register/update producer, every payload version), CRInfo, WithdrawFromSideChain
+   (its three shapes), TransferCrossChainAsset, the vote output and the Voting payload. *)
+Theorem C04_producer_info_roundtrip : forall ty pv p rest, (ty = 9 \/ ty = 11) ->
+  wt_payload ty pv (producer_info_v p) = true ->
+  dec_payload ty pv producer_info_of (enc_payload ty pv (producer_info_v p) ++ rest) = Ok (p, rest).
+Proof. exact producer_info_roundtrip. Qed.
+Print Assumptions C04_producer_info_roundtrip.
+
+Theorem C04_cr_info_roundtrip : forall ty pv p rest, (ty = 33 \/ ty = 35) ->
+  wt_payload ty pv (cr_info_v p) = true ->
+  dec_payload ty pv cr_info_of (enc_payload ty pv (cr_info_v p) ++ rest) = Ok (p, rest).
+Proof. exact cr_info_roundtrip. Qed.
+Print Assumptions C04_cr_info_roundtrip.
+
+Theorem C04_withdraw_roundtrip : forall pv w rest,
+  wt_payload 7 pv (withdraw_v w) = true ->
+  dec_payload 7 pv withdraw_of (enc_payload 7 pv (withdraw_v w) ++ rest) = Ok (w, rest).
+Proof. exact withdraw_roundtrip. Qed.
+Print Assumptions C04_withdraw_roundtrip.
+
+Theorem C04_cross_chain_roundtrip : forall pv c rest,
+  wt_payload 8 pv (cross_chain_v c) = true ->
+  dec_payload 8 pv cross_chain_of (enc_payload 8 pv (cross_chain_v c) ++ rest) = Ok (c, rest).
+Proof. exact cross_chain_roundtrip. Qed.
+Print Assumptions C04_cross_chain_roundtrip.
+
+Theorem C04_vote_output_roundtrip : forall o rest,
+  wt voteoutput_fmt [] (vote_output_v o) = true ->
+  lift vote_output_of (decode voteoutput_fmt [] (encode voteoutput_fmt [] (vote_output_v o) ++ rest)) = Ok (o, rest).
+Proof. exact vote_output_roundtrip. Qed.
+Print Assumptions C04_vote_output_roundtrip.
+
+Theorem C04_voting_roundtrip : forall pv x rest,
+  wt_payload 99 pv (voting_v x) = true ->
+  (match x with VotingV0 _ => pv = 0 | VotingRenewal _ => pv <> 0 | VotingEmpty => True end) ->
+  dec_payload 99 pv (voting_of pv) (enc_payload 99 pv (voting_v x) ++ rest) = Ok (x, rest).
+Proof. exact voting_roundtrip. Qed.
+Print Assumptions C04_voting_roundtrip.
+
+(* non-vacuity of the typed payload theorems: concrete well-typed records *)
+Example C04_payloads_nonvacuous :
+  wt_payload 9 1 (producer_info_v (mkProducerInfo [2;1] [3;1] [97] [98] 7 [99] (Some 100) (Some [5;5]))) = true /\
+  wt_payload 33 2 (cr_info_v (mkCRInfo None (repeat 1 21) (Some (repeat 2 21)) [97] [98] 3 None)) = true /\
+  wt_payload 7 0 (withdraw_v (WithdrawV0 5 [97] [repeat 9 32])) = true /\
+  wt_payload 7 2 (withdraw_v (WithdrawV2 [1; 2; 3])) = true /\
+  wt_payload 8 0 (cross_chain_v (Some [([97], 0, 100)])) = true /\
+  wt voteoutput_fmt [] (vote_output_v (mkVoteOutput 1 [(0, [([2;2], Some 10)])])) = true /\
+  wt_payload 99 0 (voting_v (VotingV0 [(4, [([2;2], 10, 20)])])) = true /\
+  wt_payload 99 1 (voting_v (VotingRenewal [(repeat 3 32, ([2;2], 10, 20))])) = true.
+Proof. exact payload_samples. Qed.
 
 (* Outside wf_tx: a transaction value with version 1..8 is serialized exactly
    like version 0 (the version byte is written only from 9 on), so it decodes
